@@ -167,6 +167,12 @@ def render_with(r, ind, is_async, specs):
     ln = r.emit(ind, "%swith %s:" % ("async " if is_async else "", ", ".join(t for _, t, _ in items)))
     for i, _, vn in items:
         r.withs[i] = (ln, vn, is_async)
+    if getattr(r, "long_blocks", False):
+        # a long block body: the with statement's own (relative) jump to its handler, and jumps around / out of the block,
+        # then exceed 255 instructions and carry EXTENDED_ARG
+        r.emit(ind + 1, "if rt.never:")
+        for j in range(LONG_BLOCK_STATEMENTS):
+            r.emit(ind + 2, "z = %d" % (2000 + j))
 
 
 def render_stmt(r, st, ind, kind):
@@ -268,16 +274,21 @@ def render_stmt(r, st, ind, kind):
 
 
 PAD_CONSTANTS = 300
+LONG_BLOCK_STATEMENTS = 140
 
 
 def render(body, kind, pad=False):
-    """pad=True: the function gets a docstring and a never-executed block that mentions PAD_CONSTANTS distinct constants
+    """pad="long": every with-block body starts with 140 never-executed statements (long relative jumps).
+    pad=True: the function gets a docstring and a never-executed block that mentions PAD_CONSTANTS distinct constants
     before anything else, so that every later constant (None included) has an index >= 256 and every instruction that
     loads one - and every jump across the block - needs an EXTENDED_ARG prefix."""
     r = Rendered()
     head = {"coro": "async def prog(rt):", "agen": "async def prog(rt):",
             "gen": "def prog(rt):", "func": "def prog(rt):"}[kind]
     r.emit(0, head)
+    if pad == "long":
+        r.long_blocks = True
+        pad = False
     if pad:
         r.emit(1, '"""padded variant"""')
         r.emit(1, "if rt.never:")
